@@ -126,7 +126,12 @@ class AST:
         k = n.get('kind')
         if nid and (nid not in self.by_id or ('inner' in n and 'inner' not in self.by_id[nid])):
             self.by_id[nid] = n
-            self.loc[nid] = (self._file, self._line)
+            if '_vf_loc' in n:
+                self.loc[nid] = tuple(n['_vf_loc'])
+            else:
+                self.loc[nid] = (self._file, self._line)
+                if k in FUNC_KINDS or k in ('VarDecl',):
+                    n['_vf_loc'] = [self._file, self._line]
         if rng:
             self._track(rng.get('end'))
         name = n.get('name')
@@ -1142,6 +1147,87 @@ class FnTranslator:
                 init = kids(f)
                 if init and not (init[0].get('kind') == 'InitListExpr' and not kids(init[0])):
                     self.fail(n, 'field %s has a non-zero default initialiser' % f.get('name'))
+
+
+KEEP_NS = ('fixedmath', 'cxx20', 'cxx23', 'vfspec')
+
+
+def prune(root):
+    """drop every top-level declaration (recursively inside namespaces) that is neither in one of
+    the library/spec namespaces nor referenced (transitively) from a kept declaration"""
+    AST(root)   # annotates _vf_loc
+    refs_of = {}
+
+    def refs(n, acc):
+        if not isinstance(n, dict):
+            return
+        for key in ('referencedDecl', 'foundReferencedDecl'):
+            r = n.get(key)
+            if isinstance(r, dict) and 'id' in r:
+                acc.add(r['id'])
+        if 'referencedMemberDecl' in n:
+            acc.add(n['referencedMemberDecl'])
+        if 'parentDeclContextId' in n:
+            acc.add(n['parentDeclContextId'])
+        for c in n.get('inner', []):
+            refs(c, acc)
+
+    def ids(n, acc):
+        if not isinstance(n, dict):
+            return
+        if 'id' in n:
+            acc.add(n['id'])
+        for c in n.get('inner', []):
+            ids(c, acc)
+
+    units = []   # (container list, node, always_keep)
+
+    def scan(container, in_keep):
+        for c in container:
+            if not isinstance(c, dict):
+                continue
+            k = c.get('kind')
+            if k == 'NamespaceDecl' or k == 'LinkageSpecDecl':
+                keep = in_keep or c.get('name') in KEEP_NS
+                scan(c.get('inner', []), keep)
+            else:
+                units.append((c, in_keep or k in ('TypedefDecl', 'TypeAliasDecl')))
+    scan(root.get('inner', []), False)
+    unit_ids = {}
+    for i, (c, keep) in enumerate(units):
+        s_ = set()
+        ids(c, s_)
+        for x in s_:
+            unit_ids.setdefault(x, i)
+    kept = set(i for i, (c, keep) in enumerate(units) if keep)
+    work = list(kept)
+    while work:
+        i = work.pop()
+        acc = set()
+        refs(units[i][0], acc)
+        for x in acc:
+            j = unit_ids.get(x)
+            if j is not None and j not in kept:
+                kept.add(j)
+                work.append(j)
+    keep_obj = set(id(units[i][0]) for i in kept)
+
+    def rebuild(container):
+        out = []
+        for c in container:
+            if not isinstance(c, dict):
+                continue
+            k = c.get('kind')
+            if k == 'NamespaceDecl' or k == 'LinkageSpecDecl':
+                inner = rebuild(c.get('inner', []))
+                if inner:
+                    d = dict(c)
+                    d['inner'] = inner
+                    out.append(d)
+            elif id(c) in keep_obj:
+                out.append(c)
+        return out
+    return {'kind': root.get('kind'), 'id': root.get('id'), 'inner': rebuild(root.get('inner', []))}
 
 
 def load_ast(path):
